@@ -982,3 +982,8 @@ def oracle_first_tb(case, obs):
 
 FAMILIES.append(Family("first_tracebacks", gen_first_tb, impl_first_tb, None, None, oracle_first_tb,
                        lambda case, obs: json.dumps(case), shard=1, case_timeout=90))
+
+
+# ---- two threads whose typed messages fail to serialize at the same time on the one default Logger: both get their reports
+FAMILIES.append(Family("failing_threads", _c13.gen_threads, _c13.impl_threads, None, None, _c13.oracle_threads,
+                       lambda case, obs: json.dumps(case), shard=30, case_timeout=30))
